@@ -151,3 +151,35 @@ func TestRecursiveRLockWriterPreference(t *testing.T) {
 		t.Fatalf("without a writer: recursive RLock must not deadlock, got %v", out)
 	}
 }
+
+// A non-blocking send (select with default) may overtake a receiver that has announced itself but
+// is only about to block: with one deviation the default branch must be reachable, with none not.
+func TestTrySendMayOvertakeReceiver(t *testing.T) {
+	run := func(bound int) map[string]int {
+		x := &vsched.Explorer{Bound: bound,
+			Body: func() {
+				ch := make(chan int)
+				ready := make(chan bool, 1)
+				got := make(chan string, 1)
+				vsched.Go(func() { vsched.Send(ready, true); vsched.Recv(ch) })
+				vsched.Go(func() {
+					vsched.Recv(ready)
+					if vsched.Select(true, vsched.NewSend(ch, 1)) == 0 {
+						vsched.Send(got, "sent")
+					} else {
+						vsched.Send(got, "default")
+					}
+				})
+				vsched.Note(vsched.Recv(got))
+			},
+			Check: func(e *vsched.Exec) (string, *vsched.Violation) { return fmt.Sprint(e.Log), nil }}
+		x.Explore()
+		return x.Stats.Outcomes
+	}
+	if out := run(0); out["[sent]"] == 0 || out["[default]"] != 0 {
+		t.Fatalf("bound 0: want only the rendezvous, got %v", out)
+	}
+	if out := run(1); out["[sent]"] == 0 || out["[default]"] == 0 {
+		t.Fatalf("bound 1: want both outcomes, got %v", out)
+	}
+}
